@@ -1009,6 +1009,11 @@ Proof.
   - rewrite put_L_tumor_items. apply put_T_tumor_items, H1.
   - rewrite put_L_lnl_items; rewrite put_T_lnl_items; [reflexivity | exact H2].
 Qed.
+Lemma leaf_after_lnl u qT qL ds : length qL = length (u_lnl_items u) ->
+  u_lnl_items (leaf_after u qT qL ds) = combine (map fst (u_lnl_items u)) qL.
+Proof.
+  intros H2. unfold leaf_after. rewrite with_dists_lnl_items. rewrite put_L_lnl_items; rewrite put_T_lnl_items; [reflexivity | exact H2].
+Qed.
 Lemma leaf_after_shape u1 u2 q1 q2 q3 q4 d1 d2 :
   same_shape (leaf_after u1 q1 q2 d1) (leaf_after u2 q3 q4 d2) = same_shape u1 u2.
 Proof.
@@ -1073,22 +1078,30 @@ Lemma decomp5 (v0 : list Qc) a b c d : length v0 = a + (b + (1 + c)) + d ->
   firstn a v0 ++ firstn b (skipn a v0) ++ [nth (a + b) v0 0%Qc] ++ firstn c (skipn (a + b + 1) v0)
   ++ firstn d (skipn (a + b + 1 + c) v0) = v0.
 Proof.
-  intros H. rewrite <- (firstn_skipn a v0) at 6. f_equal.
-  rewrite (chunk_decomp v0 a b). f_equal.
-  rewrite (skipn_cons_nth v0 (a + b) 0%Qc) by lia. cbn [app]. f_equal.
-  replace (S (a + b)) with (a + b + 1) by lia.
-  rewrite (chunk_decomp v0 (a + b + 1) c). f_equal.
-  rewrite (chunk_decomp v0 (a + b + 1 + c) d). rewrite skipn_all2 by lia. rewrite app_nil_r. reflexivity.
+  intros H.
+  assert (E1 : v0 = firstn a v0 ++ skipn a v0) by (symmetry; apply firstn_skipn).
+  assert (E2 : skipn a v0 = firstn b (skipn a v0) ++ skipn (a + b) v0) by apply chunk_decomp.
+  assert (E3 : skipn (a + b) v0 = nth (a + b) v0 0%Qc :: skipn (a + b + 1) v0).
+  { rewrite (skipn_cons_nth v0 (a + b) 0%Qc) by lia. do 2 f_equal. lia. }
+  assert (E4 : skipn (a + b + 1) v0 = firstn c (skipn (a + b + 1) v0) ++ skipn (a + b + 1 + c) v0) by apply chunk_decomp.
+  assert (E5 : skipn (a + b + 1 + c) v0 = firstn d (skipn (a + b + 1 + c) v0)).
+  { rewrite firstn_all2; [reflexivity|]. rewrite skipn_length. lia. }
+  symmetry. etransitivity; [exact E1|]. f_equal. etransitivity; [exact E2|]. f_equal. etransitivity; [exact E3|].
+  cbn [app]. f_equal. etransitivity; [exact E4|]. f_equal. exact E5.
 Qed.
 Lemma decomp5' (v0 : list Qc) a b c d e : length v0 = a + (b + (c + d)) + e ->
   firstn a v0 ++ firstn b (skipn a v0) ++ firstn c (skipn (a + b) v0) ++ firstn d (skipn (a + b + c) v0)
   ++ firstn e (skipn (a + b + c + d) v0) = v0.
 Proof.
-  intros H. rewrite <- (firstn_skipn a v0) at 6. f_equal.
-  rewrite (chunk_decomp v0 a b). f_equal.
-  rewrite (chunk_decomp v0 (a + b) c). f_equal.
-  rewrite (chunk_decomp v0 (a + b + c) d). f_equal.
-  rewrite (chunk_decomp v0 (a + b + c + d) e). rewrite skipn_all2 by lia. rewrite app_nil_r. reflexivity.
+  intros H.
+  assert (E1 : v0 = firstn a v0 ++ skipn a v0) by (symmetry; apply firstn_skipn).
+  assert (E2 : skipn a v0 = firstn b (skipn a v0) ++ skipn (a + b) v0) by apply chunk_decomp.
+  assert (E3 : skipn (a + b) v0 = firstn c (skipn (a + b) v0) ++ skipn (a + b + c) v0) by apply chunk_decomp.
+  assert (E4 : skipn (a + b + c) v0 = firstn d (skipn (a + b + c) v0) ++ skipn (a + b + c + d) v0) by apply chunk_decomp.
+  assert (E5 : skipn (a + b + c + d) v0 = firstn e (skipn (a + b + c + d) v0)).
+  { rewrite firstn_all2; [reflexivity|]. rewrite skipn_length. lia. }
+  symmetry. etransitivity; [exact E1|]. f_equal. etransitivity; [exact E2|]. f_equal. etransitivity; [exact E3|].
+  f_equal. etransitivity; [exact E4|]. f_equal. exact E5.
 Qed.
 
 (** names and validity of the model a successful call leaves behind *)
@@ -1181,10 +1194,405 @@ Proof.
     fold (leaf_after ei qI qLi dsi) in Hei'. fold (leaf_after nc qC qLn dsn) in Hnc'. rewrite Hei', Hnc', I1, I2, I3, N1, HiD.
     fold ei nc. cbn [ml_midext m0 ml_with_midext].
     split; f_equal.
-    + rewrite !map_app, !pre_vals, !map_snd_combine by (rewrite map_length; subst; rewrite ?firstn_length, ?skipn_length, ?HTnc; fold nT nL nD; lia).
+    + rewrite !map_app, !pre_vals.
+      assert (HqDl : length (map fst (dists_items (u_dists ei))) = length (firstn nD (skipn (nT + nT + 1 + nL) v0))).
+      { rewrite map_length, firstn_length, skipn_length. change (length (dists_items (u_dists ei))) with nD. lia. }
+      rewrite (map_snd_combine _ _ HqDl).
+      rewrite !map_snd_combine by (rewrite map_length; subst; rewrite ?firstn_length, ?skipn_length, ?HTnc; fold nT nL nD; lia).
       cbn [map snd]. subst qI qC qLi mix.
       rewrite <- (decomp5 v0 nT nT nL nD Hlen0) at 6. rewrite <- !app_assoc. reflexivity.
-    + rewrite !map_app, !pre_keys, !map_fst_combine by (rewrite map_length; subst; rewrite ?firstn_length, ?skipn_length, ?HTnc; fold nT nL nD; lia).
+    + rewrite !map_app, !pre_keys.
+      assert (HqDl : length (map fst (dists_items (u_dists ei))) = length (firstn nD (skipn (nT + nT + 1 + nL) v0))).
+      { rewrite map_length, firstn_length, skipn_length. change (length (dists_items (u_dists ei))) with nD. lia. }
+      rewrite (map_fst_combine _ _ HqDl).
+      rewrite !map_fst_combine by (rewrite map_length; subst; rewrite ?firstn_length, ?skipn_length, ?HTnc; fold nT nL nD; lia).
       reflexivity.
-  - admit.
-Admitted.
+  - (* without mixing *)
+    destruct (m_chain_inv_nomix m0 _ [] m' r Hok0 Emix Ech)
+      as (split & glob & nsplit & esplit & ng & eg & qI & qC & qE & qLi & qLe & qLn & m2 & dsplit & dglob & ikw & ckw & dsi & Hc).
+    cbv zeta in Hc. change (ml_ei m0) with ei in Hc. change (ml_ec m0) with ec in Hc. change (ml_nc m0) with nc in Hc.
+    change (ml_symL m0) with (ml_symL m) in Hc. rewrite HsymL in Hc.
+    destruct Hc as (Hu & Hun & Hue & HqI & HqC & HqE & HqLi & HqLe & HqLn & HuD & Hsk & Hdp & Hei' & (dsc & Hec' & Hecok) & (dsn & Hnc' & Hncok) & Hmix' & Hd' & Hs' & Hb').
+    rewrite unflatten_nil in Hu, HuD. injection Hu as <- <-. injection HuD as <- <-.
+    cbn [sub_kwargs dict_get] in Hun, Hue. rewrite unflatten_nil in Hun, Hue. injection Hun as <- <-. injection Hue as <- <-.
+    rewrite obj_kwargs_nil, side_kwargs_nil in Hsk. injection Hsk as <- <-. rewrite !obj_kwargs_nil in *.
+    rewrite !app_length, !pre_length in Hlen0. rewrite HTnc, HTec in Hlen0.
+    rewrite skipn_skipn in Hdp.
+    rewrite plan_none_prefix in HqI by lia.
+    rewrite skipn_vals_app in HqC by (rewrite ?HTnc, ?HTec, ?HLnc; lia).
+    rewrite skipn_vals_app in HqE by (rewrite ?HTnc, ?HTec, ?HLnc; lia).
+    rewrite skipn_vals_app in HqLi by (rewrite ?HTnc, ?HTec, ?HLnc; lia).
+    rewrite skipn_vals_app in HqLe by (rewrite ?HTnc, ?HTec, ?HLnc; lia).
+    rewrite skipn_vals_app in HqLn by (rewrite ?HTnc, ?HTec, ?HLnc; lia).
+    rewrite skipn_vals_app in Hdp by (rewrite ?HTnc, ?HTec, ?HLnc; lia).
+    rewrite plan_none_prefix in HqC, HqE, HqLi, HqLe, HqLn, Hdp by (rewrite skipn_length, ?HTnc, ?HTec, ?HLnc, ?HLec; lia).
+    apply all_unit_vals_inv in HqI, HqC, HqE, HqLi, HqLe, HqLn.
+    set (nT := length (u_tumor_items ei)) in *. set (nL := length (u_lnl_items ei)) in *. set (nD := length (u_dist_items ei)) in *.
+    rewrite ?HTnc, ?HTec in HqC. rewrite ?HTnc, ?HTec in HqE. rewrite ?HTnc, ?HTec in HqLi. rewrite ?HTnc, ?HTec, ?HLec in HqLe.
+    rewrite ?HTnc, ?HTec, ?HLnc in HqLn. rewrite ?HTnc, ?HTec, ?HLnc in Hdp.
+    assert (HlD : length (vals (firstn nD (skipn (nT + nT + nT + nL) v0))) = nD)
+      by (rewrite vals_length, firstn_length, skipn_length; lia).
+    destruct (dists_put_spec _ _ _ _ Hdp HlD) as (qD & HuD & HiD & _). rewrite unwrap_vals in HuD. injection HuD as <-.
+    assert (Hnames' : mid_names_ok m' = true).
+    { apply (mid_names_ok_final m0 m' qI qLi dsi qE qLe dsc qC qLn dsn (vals (firstn nD (skipn (nT + nT + nT + nL) v0))) Hok0); try assumption.
+      rewrite Hs'. symmetry. exact HsymL. }
+    rewrite (m_got_spec m' Hnames'). cbn [option_map].
+    destruct (leaf_after_items ei qI qLi dsi) as (I1 & I2 & I3); [subst qI; rewrite firstn_length; fold nT; lia | subst qLi; rewrite firstn_length, skipn_length; fold nL; lia|].
+    destruct (leaf_after_items nc qC qLn dsn) as (N1 & _ & _); [subst qC; rewrite firstn_length, skipn_length, HTnc; lia | subst qLn; rewrite firstn_length, skipn_length, HLnc; lia|].
+    destruct (leaf_after_items ec qE qLe dsc) as (E1 & _ & _); [subst qE; rewrite firstn_length, skipn_length, HTec; lia | subst qLe; rewrite firstn_length, skipn_length, HLec; lia|].
+    unfold mid_items. rewrite Hmix', Hs', HsymL, Emix. unfold m_midext_item. rewrite Hd'.
+    fold (leaf_after ei qI qLi dsi) in Hei'. fold (leaf_after nc qC qLn dsn) in Hnc'. fold (leaf_after ec qE qLe dsc) in Hec'.
+    rewrite Hei', Hnc', Hec', I1, I2, I3, N1, E1, HiD.
+    fold ei nc ec. cbn [ml_midext m0 ml_with_midext].
+    assert (HqDl : length (map fst (dists_items (u_dists ei))) = length (firstn nD (skipn (nT + nT + nT + nL) v0))).
+    { rewrite map_length, firstn_length, skipn_length. change (length (dists_items (u_dists ei))) with nD. lia. }
+    split; f_equal.
+    + rewrite !map_app, !pre_vals. rewrite (map_snd_combine _ _ HqDl).
+      rewrite !map_snd_combine by (rewrite map_length; subst; rewrite ?firstn_length, ?skipn_length, ?HTnc, ?HTec; fold nT nL nD; lia).
+      cbn [map snd]. subst qI qC qE qLi.
+      rewrite <- (decomp5' v0 nT nT nT nL nD Hlen0) at 6. rewrite <- !app_assoc. reflexivity.
+    + rewrite !map_app, !pre_keys. rewrite (map_fst_combine _ _ HqDl).
+      rewrite !map_fst_combine by (rewrite map_length; subst; rewrite ?firstn_length, ?skipn_length, ?HTnc, ?HTec; fold nT nL nD; lia).
+      reflexivity.
+Qed.
+
+(** * Keyword calls with one keyword per reported name *)
+Definition val_of (kw : kwargs) (K : path) : Qc := match kw_get K kw with Some (V y) => y | _ => 0%Qc end.
+
+Lemma block_values lk ps q (g : path -> Qc) : all_unit (plan lk ps []) = Some q ->
+  (forall k, In k (map fst ps) -> lk k = Some (V (g k))) -> q = map g (map fst ps).
+Proof.
+  intros Hq Hlk. assert (Hp : plan lk ps [] = vals (map g (map fst ps))).
+  { apply plan_all_kw; [rewrite vals_length, !map_length; reflexivity|]. intros k v Hin.
+    assert (Hk : In k (map fst ps)) by (apply in_combine_l in Hin; exact Hin). rewrite (Hlk k Hk). f_equal.
+    clear - Hin. revert Hin. generalize (map fst ps). intros ks. induction ks as [|k0 ks IH]; cbn; [tauto|].
+    intros [[= <- <-]|Hin]; [reflexivity | apply IH, Hin]. }
+  rewrite Hp in Hq. apply all_unit_vals_inv in Hq. exact Hq.
+Qed.
+Lemma combine_map_g (ps : list (path * Qc)) (g : path -> Qc) :
+  combine (map fst ps) (map g (map fst ps)) = map (fun kv => (fst kv, g (fst kv))) ps.
+Proof. induction ps as [|[k x] ps IH]; [reflexivity|]. cbn. rewrite IH. reflexivity. Qed.
+Lemma pre_map_g p (ps : list (path * Qc)) (g : path -> Qc) :
+  pre p (map (fun kv => (fst kv, g (p ++ fst kv))) ps) = map (fun kv => (fst kv, g (fst kv))) (pre p ps).
+Proof. unfold pre, prefix. rewrite !map_map. reflexivity. Qed.
+Lemma val_of_kw_of names : NoDup names -> forall v, length v = length names -> map (val_of (kw_of names v)) names = v.
+Proof.
+  intros Hnd. induction names as [|k names IH]; intros [|x v] Hl; cbn [length] in Hl; try discriminate; [reflexivity|].
+  inversion Hnd as [|? ? Hni Hnd']; subst. cbn [map]. f_equal.
+  - unfold val_of, kw_of. cbn [vals map combine kw_get]. rewrite path_eqb_refl. reflexivity.
+  - rewrite <- (IH Hnd' v) at 2 by lia. apply map_ext_in. intros K HK. unfold val_of, kw_of. cbn [vals map combine kw_get].
+    rewrite path_eqb_neq; [reflexivity | intros ->; contradiction].
+Qed.
+
+(** shape of the reported names of a midline model *)
+Lemma mid_name_form m K : In K (map fst (mid_items m)) ->
+  (exists n s, K = ["ipsi"; n; s] /\ EN (ml_ei m) n) \/ (exists n s, K = ["contra"; n; s]) \/ K = ["mixing"] \/
+  (exists n s, K = ["noext"; "contra"; n; s]) \/ (exists n s, K = ["ext"; "contra"; n; s]) \/
+  (exists n s, K = [n; s] /\ (EN (ml_ei m) n \/ TS (ml_ei m) n)) \/ K = ["midext"; "prob"].
+Proof.
+  assert (Hp : forall (p : path) u k', (In k' (map fst (u_tumor_items u)) \/ In k' (map fst (u_lnl_items u))) ->
+                 exists n s, p ++ k' = p ++ [n; s] /\ EN u n).
+  { intros p u k' H. destruct (spread_key_form u k' H) as (n & s & -> & Hn). eauto. }
+  unfold mid_items, m_mixing_item, m_midext_item.
+  destruct (ml_mixing m) as [mix|], (ml_symL m);
+    rewrite ?map_app, ?pre_app, ?map_app, ?in_app_iff, ?in_pre_keys; cbn [map fst In]; intros Hin;
+    repeat match goal with H : _ \/ _ |- _ => destruct H end;
+    repeat match goal with H : exists k', _ /\ _ |- _ => destruct H as (? & -> & ?) end; subst; try tauto.
+  all: try (match goal with H : In ?k (map fst (u_tumor_items ?u)) |- _ => destruct (spread_key_form u k (or_introl H)) as (n & s & -> & Hn) end).
+  all: try (match goal with H : In ?k (map fst (u_lnl_items ?u)) |- _ => destruct (spread_key_form u k (or_intror H)) as (n & s & -> & Hn) end).
+  all: try (match goal with H : In ?k (map fst (u_dist_items ?u)) |- _ => destruct (dist_key_form u k H) as (n & s & -> & Hn) end).
+  all: cbn [app]; eauto 12.
+Qed.
+
+Ltac form_cases H :=
+  apply mid_name_form in H; repeat (destruct H as [H|H]);
+  repeat match type of H with ex _ => let x := fresh "x" in destruct H as (x & H) end;
+  try match type of H with _ /\ _ => let H' := fresh "Hform" in destruct H as [H H'] end.
+
+Lemma not_empty_X4 : ~ In "" X4. Proof. cbn. intuition discriminate. Qed.
+
+Section MidKw.
+  Variables (m : midline) (v : list Qc).
+  Hypothesis Hok : mid_set_ok m = true.
+  Hypothesis Hl : length v = length (mid_items m).
+  Let names := map fst (mid_items m).
+  Let kw := kw_of names v.
+  Let Hok' : mid_names_ok m = true. Proof. unfold mid_set_ok in Hok. rewrite !andb_true_iff in Hok. apply Hok. Qed.
+  Let Hei : u_names_ok (ml_ei m) = true. Proof. apply (m_ok_parts m Hok'). Qed.
+
+  Lemma kw_keys : map fst kw = names.
+  Proof. apply kw_of_keys. unfold names. rewrite map_length. exact Hl. Qed.
+  Lemma kw_nd : NoDup (map fst kw).
+  Proof. rewrite kw_keys. apply mid_items_NoDup, Hok'. Qed.
+  Lemma kw_in K : In K names -> kw_last K kw = Some (V (val_of kw K)).
+  Proof.
+    intros H. rewrite kw_last_NoDup by apply kw_nd. destruct (kw_of_get names v K) as (y & Hy); [unfold names; rewrite map_length; exact Hl | exact H|].
+    fold kw in Hy. unfold val_of. rewrite Hy. reflexivity.
+  Qed.
+  Lemma kw_notin K : ~ In K names -> kw_last K kw = None.
+  Proof. intros H. rewrite kw_last_NoDup by apply kw_nd. apply kw_get_In_None. rewrite kw_keys. exact H. Qed.
+
+  Section WithX4.
+    Variables (split : list (string * kwargs)) (glob : kwargs).
+    Hypothesis Hu : unflatten_and_split kw X4 = (split, glob).
+
+    Lemma lk_side side n t : In side X4 -> In (side :: n :: t) names ->
+      u_lk (obj_kwargs side split glob) (n :: t) = Some (V (val_of kw (side :: n :: t))).
+    Proof.
+      intros Hs Hin. unfold u_lk. rewrite kw_last_NoDup by (apply (obj_kwargs_NoDup kw X4); exact Hu).
+      rewrite (obj_kwargs_lookup kw X4 side (n :: t) split glob not_empty_X4 Hu Hs). unfold eff. rewrite (kw_in _ Hin). reflexivity.
+    Qed.
+    Lemma lk_glob n t : ~ In n X4 -> In (n :: t) names -> u_lk glob (n :: t) = Some (V (val_of kw (n :: t))).
+    Proof.
+      intros Hn Hin. unfold u_lk. destruct (glob_lookup kw X4 (n :: t) split glob not_empty_X4 Hu) as [Hg Hnd].
+      rewrite kw_last_NoDup by exact Hnd. rewrite Hg. unfold head_of. cbn [partition_key fst]. apply mem_false in Hn. rewrite Hn.
+      rewrite (kw_in _ Hin). reflexivity.
+    Qed.
+    Lemma lk_mixing : In ["mixing"] names -> kw_get ["mixing"] glob = Some (V (val_of kw ["mixing"])).
+    Proof.
+      intros Hin. destruct (glob_lookup kw X4 ["mixing"] split glob not_empty_X4 Hu) as [Hg _]. rewrite Hg. cbn. apply (kw_in _ Hin).
+    Qed.
+    Lemma lk_nested side nsplit ng n t : (side = "noext" \/ side = "ext") ->
+      unflatten_and_split (sub_kwargs side split) ["contra"] = (nsplit, ng) -> In (side :: "contra" :: n :: t) names ->
+      u_lk (obj_kwargs "contra" nsplit glob) (n :: t) = Some (V (val_of kw (side :: "contra" :: n :: t))).
+    Proof.
+      intros Hside Hun Hin. assert (Hs : In side X4) by (destruct Hside as [-> | ->]; cbn; tauto).
+      destruct (glob_lookup kw X4 (n :: t) split glob not_empty_X4 Hu) as [_ Hgnd].
+      assert (Hc : ~ In "" ["contra"]) by (cbn; intuition discriminate).
+      destruct (sub_kwargs_lookup (sub_kwargs side split) ["contra"] "contra" (n :: t) nsplit ng Hc Hun (or_introl eq_refl)) as [Hsub Hsnd].
+      destruct (sub_kwargs_lookup kw X4 side ("contra" :: n :: t) split glob not_empty_X4 Hu Hs) as [Hsub2 Hsnd2].
+      unfold u_lk, obj_kwargs. rewrite kw_last_NoDup by (apply kw_update_NoDup, Hgnd).
+      rewrite kw_get_update, kw_get_rev_NoDup by exact Hsnd. rewrite Hsub, kw_last_NoDup by exact Hsnd2. rewrite Hsub2, (kw_in _ Hin). reflexivity.
+    Qed.
+  End WithX4.
+
+  (** distributions: the keyword "t_k" travels ext -> ipsi -> T-stage as a global name *)
+  Lemma lk_dist XDl dsplit dglob ikw ckw t k :
+    In "ext" XDl -> (forall s, In s XDl -> In s ["ext"; "noext"; "central"; "unknown"]) ->
+    unflatten_and_split kw XDl = (dsplit, dglob) -> side_kwargs (obj_kwargs "ext" dsplit dglob) = (ikw, ckw) ->
+    In [t; k] names -> TS (ml_ei m) t ->
+    u_lk ikw [t; k] = Some (V (val_of kw [t; k])).
+  Proof.
+    intros Hext Hsub Hud Hsk Hin Ht.
+    assert (HeD : ~ In "" XDl) by (intros H; apply Hsub in H; cbn in H; intuition discriminate).
+    assert (Htres : forall w, In w reserved -> t <> w) by (intros w Hw ->; exact (in_reserved_not_tstage (ml_ei m) _ Hei Hw Ht)).
+    assert (HtXD : ~ In t XDl) by (intros H; apply Hsub in H; cbn in H; destruct H as [H|[H|[H|[H|[]]]]]; symmetry in H; revert H; apply Htres; cbn; tauto).
+    set (ekw := obj_kwargs "ext" dsplit dglob) in *.
+    assert (Hend : NoDup (map fst ekw)) by (apply (obj_kwargs_NoDup kw XDl); exact Hud).
+    assert (Hekw : forall K, kw_last K ekw = eff XDl kw "ext" K)
+      by (intros K; rewrite kw_last_NoDup by exact Hend; apply (obj_kwargs_lookup kw XDl "ext" K dsplit dglob HeD Hud Hext)).
+    destruct (side_kwargs_lk ekw ikw ckw Hsk) as [Hlk _]. rewrite Hlk. unfold side_lk, eff at 1. rewrite !Hekw.
+    (* "ipsi_t_k" is not there, neither through "ext_ipsi_t_k" *)
+    assert (N1 : ~ In ["ext"; "ipsi"; t; k] names).
+    { intros H. form_cases H; discriminate. }
+    assert (N2 : ~ In ["ipsi"; t; k] names).
+    { intros H. form_cases H; try discriminate. injection H as -> ->. exact (EN_TS_disj (ml_ei m) Hei _ Hform Ht). }
+    assert (N3 : ~ In ["ext"; t; k] names).
+    { intros H. form_cases H; discriminate. }
+    unfold eff. rewrite (kw_notin _ N1). unfold head_of. cbn [partition_key fst].
+    assert (Hi : mem "ipsi" XDl = false) by (apply mem_false; intros H; apply Hsub in H; cbn in H; intuition discriminate).
+    rewrite Hi, (kw_notin _ N2). cbn [mem sides].
+    assert (Hts : str_eqb t "ipsi" || (str_eqb t "contra" || false) = false).
+    { rewrite !str_eqb_neq; [reflexivity | apply Htres; cbn; tauto | apply Htres; cbn; tauto]. }
+    rewrite Hts, (kw_notin _ N3). apply mem_false in HtXD. rewrite HtXD, (kw_in _ Hin). reflexivity.
+  Qed.
+End MidKw.
+
+Lemma popat_nil {A} (idx : Z) : (0 <= idx)%Z -> popat (@nil A) idx = ([], None, []).
+Proof.
+  intros H. unfold popat. cbn [length]. assert (H0 : (idx <? 0)%Z = false) by (apply Z.ltb_ge; lia). rewrite H0.
+  assert (H1 : (idx >=? Z.of_nat 0)%Z = true) by (rewrite Z.geb_leb; apply Z.leb_le; lia). rewrite H0, H1. reflexivity.
+Qed.
+Lemma skipn_nil' {A} n : skipn n (@nil A) = [].
+Proof. destruct n; reflexivity. Qed.
+Lemma dist_block_values maxt ds lk (ps : list (path * Qc)) dsi (g : path -> Qc) :
+  dists_put maxt ds (plan lk ps []) = Some dsi -> length ps = length (dists_items ds) ->
+  (forall k, In k (map fst ps) -> lk k = Some (V (g k))) ->
+  dists_items dsi = combine (map fst (dists_items ds)) (map g (map fst ps)).
+Proof.
+  intros Hdp Hlen Hlk.
+  assert (Hp : plan lk ps [] = vals (map g (map fst ps))).
+  { apply plan_all_kw; [rewrite vals_length, !map_length; reflexivity|]. intros k v0 Hin.
+    assert (Hk : In k (map fst ps)) by (apply in_combine_l in Hin; exact Hin). rewrite (Hlk k Hk). f_equal.
+    clear - Hin. revert Hin. generalize (map fst ps). intros ks. induction ks as [|k0 ks IH]; cbn; [tauto|].
+    intros [[= <- <-]|Hin]; [reflexivity | apply IH, Hin]. }
+  rewrite Hp in Hdp.
+  destruct (dists_put_spec _ _ _ _ Hdp) as (qD & HuD & HiD & _); [rewrite vals_length, !map_length; exact Hlen|].
+  rewrite unwrap_vals in HuD. injection HuD as <-. exact HiD.
+Qed.
+
+Theorem mid_set_get_keyword : C10_mid_set_get_keyword_stmt.
+Proof.
+  intros m v Hok Hl r Hr. subst r.
+  assert (Hok' : mid_names_ok m = true) by (unfold mid_set_ok in Hok; rewrite !andb_true_iff in Hok; apply Hok).
+  destruct (m_ok_parts m Hok') as (Hei & Hec & Hnc & _ & _ & _ & _ & HbsymL).
+  set (names := map fst (mid_items m)) in *. set (kw := kw_of names v) in *.
+  pose proof (kw_in m v Hok Hl) as Hkin. pose proof (kw_notin m v Hok Hl) as Hknot. fold names kw in Hkin, Hknot.
+  assert (Hmid_in : In ["midext"; "prob"] names).
+  { unfold names. rewrite mid_items_split, !map_app, !in_app_iff. right. right. left. reflexivity. }
+  rewrite (m_set_params_unfold m _ kw Hok') in Hr |- *.
+  rewrite popat_nil in * by (rewrite mid_items_split, !app_length; cbn [m_midext_item length]; lia).
+  cbv beta iota zeta in Hr |- *.
+  assert (Hmp : kw_get ["midext"; "prob"] kw = Some (V (val_of kw ["midext"; "prob"]))).
+  { rewrite <- (kw_last_NoDup _ _ (kw_nd m v Hok Hl)). apply Hkin, Hmid_in. }
+  rewrite Hmp in Hr |- *.
+  destruct (check_unit (V (val_of kw ["midext"; "prob"]))) as [x'|] eqn:Ex; cbn [option_map] in Hr |- *; [|exfalso; apply Hr; reflexivity].
+  apply check_unit_Some in Ex. destruct Ex as [[= <-] _].
+  set (x := val_of kw ["midext"; "prob"]) in *. set (m0 := ml_with_midext m x) in *.
+  assert (Hok0 : mid_set_ok m0 = true) by exact Hok.
+  destruct (andthen (m_set_spread_params m0 ([] ++ []) kw) (fun m1 a1 => m_set_distribution_params m1 a1 kw)) as [m' [r|]] eqn:Ech;
+    [|exfalso; apply Hr; reflexivity]. cbn [fst snd app] in *. clear Hr.
+  set (ei := ml_ei m) in *. set (ec := ml_ec m) in *. set (nc := ml_nc m) in *.
+  set (g := fun K : path => val_of kw K).
+  (* goal: the reported items are the old names with the keyword values *)
+  enough (Hitems : mid_names_ok m' = true /\ mid_items m' = map (fun kv => (fst kv, g (fst kv))) (mid_items m)).
+  { destruct Hitems as [Hn' Hi']. rewrite (m_got_spec m' Hn'), Hi'. cbn [option_map]. rewrite !map_map. cbn [fst snd]. split; [f_equal | reflexivity].
+    rewrite <- (map_map fst g). fold names. unfold g, kw. apply val_of_kw_of; [apply mid_items_NoDup, Hok' | unfold names; rewrite map_length; exact Hl]. }
+  assert (Hin_names : forall K, In K (map fst (mid_items m)) -> In K names) by (intros K HK; exact HK).
+  destruct (ml_mixing m) as [cur|] eqn:Emix.
+  - (* with mixing *)
+    destruct (m_chain_inv_mix m0 [] kw m' r cur Hok0 Emix Ech)
+      as (split & glob & qI & qC & mix & qE & qLi & qLe & qLn & m2 & dsplit & dglob & ikw & ckw & dsi & Hc).
+    cbv zeta in Hc. change (ml_ei m0) with ei in Hc. change (ml_ec m0) with ec in Hc. change (ml_nc m0) with nc in Hc.
+    change (ml_symL m0) with (ml_symL m) in Hc. destruct (ml_symL m) eqn:EsymL; rewrite !skipn_nil' in Hc;
+    destruct Hc as (Hu & HqI & HqC & Hmx & HqLi & HqLe & HqLn & HuD & Hsk & Hdp & Hei' & (dsc & Hec' & Hecok) & (dsn & Hnc' & Hncok) & Hmix' & Hd' & Hs' & Hb');
+    (assert (Hmixin : In ["mixing"] names)
+      by (unfold names, mid_items, m_mixing_item; rewrite Emix, EsymL, !map_app, !in_app_iff; cbn; tauto));
+    rewrite (lk_mixing m v Hok Hl split glob Hu Hmixin) in Hmx; apply check_unit_Some in Hmx; destruct Hmx as [[= Hmixv] _];
+    (assert (Hdi : dists_items dsi = combine (map fst (u_dist_items ei)) (map g (map fst (u_dist_items ei))))
+      by (apply (dist_block_values _ _ _ _ _ g Hdp); [reflexivity|]; intros k Hk;
+          destruct (dist_key_form ei k Hk) as (t & s & -> & Ht); destruct (XD_props m2) as [Hx1 Hx2];
+          apply (lk_dist m v Hok Hl (XD m2) dsplit dglob ikw ckw t s Hx1 Hx2 HuD Hsk); [|exact Ht];
+          unfold names; rewrite mid_items_split, !map_app, !in_app_iff; right; left; exact Hk)).
+    + (* symmetric LNL spread *)
+      assert (EqI : qI = map (fun k => g ("ipsi" :: k)) (map fst (u_tumor_items ei))).
+      { apply (block_values _ _ _ _ HqI). intros k Hk. destruct (spread_key_form ei k (or_introl Hk)) as (n & s & -> & _).
+        apply (lk_side m v Hok Hl split glob Hu "ipsi"); [cbn; tauto|].
+        unfold names, mid_items. rewrite Emix, EsymL, !map_app, !in_app_iff, !in_pre_keys. left. exists [n; s]. split; [reflexivity | exact Hk]. }
+      assert (EqC : qC = map (fun k => g ("contra" :: k)) (map fst (u_tumor_items nc))).
+      { apply (block_values _ _ _ _ HqC). intros k Hk. destruct (spread_key_form nc k (or_introl Hk)) as (n & s & -> & _).
+        apply (lk_side m v Hok Hl split glob Hu "contra"); [cbn; tauto|].
+        unfold names, mid_items. rewrite Emix, EsymL, !map_app, !in_app_iff, !in_pre_keys. right. left. exists [n; s]. split; [reflexivity | exact Hk]. }
+      assert (EqL : qLi = map g (map fst (u_lnl_items ei))).
+      { apply (block_values _ _ _ _ HqLi). intros k Hk. destruct (spread_key_form ei k (or_intror Hk)) as (n & s & -> & Hn).
+        apply (lk_glob m v Hok Hl split glob Hu).
+        - intros H4. apply (in_reserved_not_edge ei n Hei); [|exact Hn]. cbn in H4. cbn. intuition.
+        - unfold names, mid_items. rewrite Emix, EsymL, !map_app, !in_app_iff. right. right. right. left. exact Hk. }
+      assert (Hnames' : mid_names_ok m' = true).
+      { apply (mid_names_ok_final m0 m' qI qLi dsi qE qLe dsc qC qLn dsn _ Hok0 Hei' Hec' Hnc' Hecok Hncok Hdp); [apply plan_length | rewrite Hs'; symmetry; exact EsymL | exact Hb']. }
+      split; [exact Hnames'|].
+      destruct (leaf_after_items ei qI qLi dsi) as (I1 & I2 & I3); [rewrite EqI, !map_length; reflexivity | rewrite EqL, !map_length; reflexivity|].
+      destruct (leaf_after_items nc qC qLn dsn) as (N1 & _ & _); [rewrite EqC, !map_length; reflexivity | apply (plan_lengths _ _ _ _ HqLn)|].
+      unfold mid_items. rewrite Hmix', Hs', Emix, EsymL. unfold m_mixing_item, m_midext_item. rewrite Hmix', Emix, Hd'.
+      fold (leaf_after ei qI qLi dsi) in Hei'. fold (leaf_after nc qC qLn dsn) in Hnc'. rewrite Hei', Hnc', I1, I2, I3, N1, Hdi.
+      fold ei nc. rewrite EqI, EqC, EqL, !combine_map_g, !map_app.
+      rewrite <- (pre_map_g ["ipsi"] (u_tumor_items ei) g), <- (pre_map_g ["contra"] (u_tumor_items nc) g).
+      cbn [map fst]. rewrite <- Hmixv. reflexivity.
+    + (* asymmetric LNL spread *)
+      assert (EqI : qI = map (fun k => g ("ipsi" :: k)) (map fst (u_tumor_items ei))).
+      { apply (block_values _ _ _ _ HqI). intros k Hk. destruct (spread_key_form ei k (or_introl Hk)) as (n & s & -> & _).
+        apply (lk_side m v Hok Hl split glob Hu "ipsi"); [cbn; tauto|].
+        unfold names, mid_items. rewrite Emix, EsymL, !map_app, !pre_app, !map_app, !in_app_iff, !in_pre_keys. left. left. exists [n; s]. split; [reflexivity | exact Hk]. }
+      assert (EqC : qC = map (fun k => g ("contra" :: k)) (map fst (u_tumor_items nc))).
+      { apply (block_values _ _ _ _ HqC). intros k Hk. destruct (spread_key_form nc k (or_introl Hk)) as (n & s & -> & _).
+        apply (lk_side m v Hok Hl split glob Hu "contra"); [cbn; tauto|].
+        unfold names, mid_items. rewrite Emix, EsymL, !map_app, !pre_app, !map_app, !in_app_iff, !in_pre_keys. right. left. left. exists [n; s]. split; [reflexivity | exact Hk]. }
+      assert (EqL : qLi = map (fun k => g ("ipsi" :: k)) (map fst (u_lnl_items ei))).
+      { apply (block_values _ _ _ _ HqLi). intros k Hk. destruct (spread_key_form ei k (or_intror Hk)) as (n & s & -> & Hn).
+        apply (lk_side m v Hok Hl split glob Hu "ipsi"); [cbn; tauto|].
+        unfold names, mid_items. rewrite Emix, EsymL, !map_app, !pre_app, !map_app, !in_app_iff, !in_pre_keys. left. right. exists [n; s]. split; [reflexivity | exact Hk]. }
+      assert (EqLe : qLe = map (fun k => g ("contra" :: k)) (map fst (u_lnl_items ec))).
+      { apply (block_values _ _ _ _ HqLe). intros k Hk. destruct (spread_key_form ec k (or_intror Hk)) as (n & s & -> & Hn).
+        apply (lk_side m v Hok Hl split glob Hu "contra"); [cbn; tauto|].
+        unfold names, mid_items. rewrite Emix, EsymL, !map_app, !pre_app, !map_app, !in_app_iff, !in_pre_keys. right. left. right. exists [n; s]. split; [reflexivity | exact Hk]. }
+      assert (Hnames' : mid_names_ok m' = true).
+      { apply (mid_names_ok_final m0 m' qI qLi dsi qE qLe dsc qC qLn dsn _ Hok0 Hei' Hec' Hnc' Hecok Hncok Hdp); [apply plan_length | rewrite Hs'; symmetry; exact EsymL | exact Hb']. }
+      split; [exact Hnames'|].
+      destruct (leaf_after_items ei qI qLi dsi) as (I1 & I2 & I3); [rewrite EqI, !map_length; reflexivity | rewrite EqL, !map_length; reflexivity|].
+      destruct (leaf_after_items nc qC qLn dsn) as (N1 & _ & _); [rewrite EqC, !map_length; reflexivity | apply (plan_lengths _ _ _ _ HqLn)|].
+      pose proof (leaf_after_lnl ec qE qLe dsc) as E2. rewrite EqLe, !map_length in E2. specialize (E2 eq_refl). rewrite <- EqLe in E2.
+      unfold mid_items. rewrite Hmix', Hs', Emix, EsymL. unfold m_mixing_item, m_midext_item. rewrite Hmix', Emix, Hd'.
+      fold (leaf_after ei qI qLi dsi) in Hei'. fold (leaf_after nc qC qLn dsn) in Hnc'. fold (leaf_after ec qE qLe dsc) in Hec'.
+      rewrite Hei', Hnc', Hec', I1, I2, I3, N1, E2, Hdi.
+      fold ei nc ec. rewrite EqI, EqC, EqL, EqLe, !combine_map_g, !map_app, !pre_app, !map_app.
+      rewrite <- (pre_map_g ["ipsi"] (u_tumor_items ei) g), <- (pre_map_g ["contra"] (u_tumor_items nc) g).
+      rewrite <- (pre_map_g ["ipsi"] (u_lnl_items ei) g), <- (pre_map_g ["contra"] (u_lnl_items ec) g).
+      cbn [map fst]. rewrite <- Hmixv. rewrite <- !app_assoc. reflexivity.
+  - (* without mixing *)
+    destruct (m_chain_inv_nomix m0 [] kw m' r Hok0 Emix Ech)
+      as (split & glob & nsplit & esplit & ng & eg & qI & qC & qE & qLi & qLe & qLn & m2 & dsplit & dglob & ikw & ckw & dsi & Hc).
+    cbv zeta in Hc. change (ml_ei m0) with ei in Hc. change (ml_ec m0) with ec in Hc. change (ml_nc m0) with nc in Hc.
+    change (ml_symL m0) with (ml_symL m) in Hc. destruct (ml_symL m) eqn:EsymL; rewrite !skipn_nil' in Hc;
+    destruct Hc as (Hu & Hun & Hue & HqI & HqC & HqE & HqLi & HqLe & HqLn & HuD & Hsk & Hdp & Hei' & (dsc & Hec' & Hecok) & (dsn & Hnc' & Hncok) & Hmix' & Hd' & Hs' & Hb');
+    (assert (Hdi : dists_items dsi = combine (map fst (u_dist_items ei)) (map g (map fst (u_dist_items ei))))
+      by (apply (dist_block_values _ _ _ _ _ g Hdp); [reflexivity|]; intros k Hk;
+          destruct (dist_key_form ei k Hk) as (t & s & -> & Ht); destruct (XD_props m2) as [Hx1 Hx2];
+          apply (lk_dist m v Hok Hl (XD m2) dsplit dglob ikw ckw t s Hx1 Hx2 HuD Hsk); [|exact Ht];
+          unfold names; rewrite mid_items_split, !map_app, !in_app_iff; right; left; exact Hk)).
+    + (* symmetric LNL spread *)
+      assert (EqI : qI = map (fun k => g ("ipsi" :: k)) (map fst (u_tumor_items ei))).
+      { apply (block_values _ _ _ _ HqI). intros k Hk. destruct (spread_key_form ei k (or_introl Hk)) as (n & s & -> & _).
+        apply (lk_side m v Hok Hl split glob Hu "ipsi"); [cbn; tauto|].
+        unfold names, mid_items. rewrite Emix, EsymL, !map_app, !in_app_iff, !in_pre_keys. left. exists [n; s]. split; [reflexivity | exact Hk]. }
+      assert (EqC : qC = map (fun k => g ("noext" :: "contra" :: k)) (map fst (u_tumor_items nc))).
+      { apply (block_values _ _ _ _ HqC). intros k Hk. destruct (spread_key_form nc k (or_introl Hk)) as (n & s & -> & _).
+        apply (lk_nested m v Hok Hl split glob Hu "noext" nsplit ng); [tauto | exact Hun|].
+        unfold names, mid_items. rewrite Emix, EsymL, !map_app, !in_app_iff, !in_pre_keys. right. left. exists [n; s]. split; [reflexivity | exact Hk]. }
+      assert (EqE : qE = map (fun k => g ("ext" :: "contra" :: k)) (map fst (u_tumor_items ec))).
+      { apply (block_values _ _ _ _ HqE). intros k Hk. destruct (spread_key_form ec k (or_introl Hk)) as (n & s & -> & _).
+        apply (lk_nested m v Hok Hl split glob Hu "ext" esplit eg); [tauto | exact Hue|].
+        unfold names, mid_items. rewrite Emix, EsymL, !map_app, !in_app_iff, !in_pre_keys. right. right. left. exists [n; s]. split; [reflexivity | exact Hk]. }
+      assert (EqL : qLi = map g (map fst (u_lnl_items ei))).
+      { apply (block_values _ _ _ _ HqLi). intros k Hk. destruct (spread_key_form ei k (or_intror Hk)) as (n & s & -> & Hn).
+        apply (lk_glob m v Hok Hl split glob Hu).
+        - intros H4. apply (in_reserved_not_edge ei n Hei); [|exact Hn]. cbn in H4. cbn. intuition.
+        - unfold names, mid_items. rewrite Emix, EsymL, !map_app, !in_app_iff. right. right. right. left. exact Hk. }
+      assert (Hnames' : mid_names_ok m' = true).
+      { apply (mid_names_ok_final m0 m' qI qLi dsi qE qLe dsc qC qLn dsn _ Hok0 Hei' Hec' Hnc' Hecok Hncok Hdp); [apply plan_length | rewrite Hs'; symmetry; exact EsymL | exact Hb']. }
+      split; [exact Hnames'|].
+      destruct (leaf_after_items ei qI qLi dsi) as (I1 & I2 & I3); [rewrite EqI, !map_length; reflexivity | rewrite EqL, !map_length; reflexivity|].
+      destruct (leaf_after_items nc qC qLn dsn) as (N1 & _ & _); [rewrite EqC, !map_length; reflexivity | apply (plan_lengths _ _ _ _ HqLn)|].
+      destruct (leaf_after_items ec qE qLe dsc) as (E1 & _ & _); [rewrite EqE, !map_length; reflexivity | apply (plan_lengths _ _ _ _ HqLe)|].
+      unfold mid_items. rewrite Hmix', Hs', Emix, EsymL. unfold m_midext_item. rewrite Hd'.
+      fold (leaf_after ei qI qLi dsi) in Hei'. fold (leaf_after nc qC qLn dsn) in Hnc'. fold (leaf_after ec qE qLe dsc) in Hec'.
+      rewrite Hei', Hnc', Hec', I1, I2, I3, N1, E1, Hdi.
+      fold ei nc ec. rewrite EqI, EqC, EqE, EqL, !combine_map_g, !map_app.
+      rewrite <- (pre_map_g ["ipsi"] (u_tumor_items ei) g), <- (pre_map_g ["noext"; "contra"] (u_tumor_items nc) g),
+              <- (pre_map_g ["ext"; "contra"] (u_tumor_items ec) g).
+      reflexivity.
+    + (* asymmetric LNL spread *)
+      assert (EqI : qI = map (fun k => g ("ipsi" :: k)) (map fst (u_tumor_items ei))).
+      { apply (block_values _ _ _ _ HqI). intros k Hk. destruct (spread_key_form ei k (or_introl Hk)) as (n & s & -> & _).
+        apply (lk_side m v Hok Hl split glob Hu "ipsi"); [cbn; tauto|].
+        unfold names, mid_items. rewrite Emix, EsymL, !map_app, !pre_app, !map_app, !in_app_iff, !in_pre_keys. left. left. exists [n; s]. split; [reflexivity | exact Hk]. }
+      assert (EqC : qC = map (fun k => g ("noext" :: "contra" :: k)) (map fst (u_tumor_items nc))).
+      { apply (block_values _ _ _ _ HqC). intros k Hk. destruct (spread_key_form nc k (or_introl Hk)) as (n & s & -> & _).
+        apply (lk_nested m v Hok Hl split glob Hu "noext" nsplit ng); [tauto | exact Hun|].
+        unfold names, mid_items. rewrite Emix, EsymL, !map_app, !pre_app, !map_app, !in_app_iff, !in_pre_keys. right. left. exists [n; s]. split; [reflexivity | exact Hk]. }
+      assert (EqE : qE = map (fun k => g ("ext" :: "contra" :: k)) (map fst (u_tumor_items ec))).
+      { apply (block_values _ _ _ _ HqE). intros k Hk. destruct (spread_key_form ec k (or_introl Hk)) as (n & s & -> & _).
+        apply (lk_nested m v Hok Hl split glob Hu "ext" esplit eg); [tauto | exact Hue|].
+        unfold names, mid_items. rewrite Emix, EsymL, !map_app, !pre_app, !map_app, !in_app_iff, !in_pre_keys. right. right. left. exists [n; s]. split; [reflexivity | exact Hk]. }
+      assert (EqL : qLi = map (fun k => g ("ipsi" :: k)) (map fst (u_lnl_items ei))).
+      { apply (block_values _ _ _ _ HqLi). intros k Hk. destruct (spread_key_form ei k (or_intror Hk)) as (n & s & -> & Hn).
+        apply (lk_side m v Hok Hl split glob Hu "ipsi"); [cbn; tauto|].
+        unfold names, mid_items. rewrite Emix, EsymL, !map_app, !pre_app, !map_app, !in_app_iff, !in_pre_keys. left. right. exists [n; s]. split; [reflexivity | exact Hk]. }
+      assert (EqLe : qLe = map (fun k => g ("contra" :: k)) (map fst (u_lnl_items ec))).
+      { apply (block_values _ _ _ _ HqLe). intros k Hk. destruct (spread_key_form ec k (or_intror Hk)) as (n & s & -> & Hn).
+        apply (lk_side m v Hok Hl split glob Hu "contra"); [cbn; tauto|].
+        unfold names, mid_items. rewrite Emix, EsymL, !map_app, !pre_app, !map_app, !in_app_iff, !in_pre_keys. right. right. right. left. exists [n; s]. split; [reflexivity | exact Hk]. }
+      assert (Hnames' : mid_names_ok m' = true).
+      { apply (mid_names_ok_final m0 m' qI qLi dsi qE qLe dsc qC qLn dsn _ Hok0 Hei' Hec' Hnc' Hecok Hncok Hdp); [apply plan_length | rewrite Hs'; symmetry; exact EsymL | exact Hb']. }
+      split; [exact Hnames'|].
+      destruct (leaf_after_items ei qI qLi dsi) as (I1 & I2 & I3); [rewrite EqI, !map_length; reflexivity | rewrite EqL, !map_length; reflexivity|].
+      destruct (leaf_after_items nc qC qLn dsn) as (N1 & _ & _); [rewrite EqC, !map_length; reflexivity | apply (plan_lengths _ _ _ _ HqLn)|].
+      destruct (leaf_after_items ec qE qLe dsc) as (E1 & E2 & _); [rewrite EqE, !map_length; reflexivity | rewrite EqLe, !map_length; reflexivity|].
+      unfold mid_items. rewrite Hmix', Hs', Emix, EsymL. unfold m_midext_item. rewrite Hd'.
+      fold (leaf_after ei qI qLi dsi) in Hei'. fold (leaf_after nc qC qLn dsn) in Hnc'. fold (leaf_after ec qE qLe dsc) in Hec'.
+      rewrite Hei', Hnc', Hec', I1, I2, I3, N1, E1, E2, Hdi.
+      fold ei nc ec. rewrite EqI, EqC, EqE, EqL, EqLe, !combine_map_g, !map_app, !pre_app, !map_app.
+      rewrite <- (pre_map_g ["ipsi"] (u_tumor_items ei) g), <- (pre_map_g ["noext"; "contra"] (u_tumor_items nc) g),
+              <- (pre_map_g ["ext"; "contra"] (u_tumor_items ec) g).
+      rewrite <- (pre_map_g ["ipsi"] (u_lnl_items ei) g), <- (pre_map_g ["contra"] (u_lnl_items ec) g).
+      rewrite <- !app_assoc. reflexivity.
+Qed.
